@@ -190,12 +190,23 @@ func codecValue(w int, r SRow, f string) sVal {
 		case 2:
 			v = base + T*10 + int64(cellH%7)
 		case 3:
-			ex := []int64{maxSafeInt, -maxSafeInt, 0, 1, -1, 1 << 31, -(1 << 31), 1 << 32, (1 << 32) + 1, maxSafeInt - 1}
+			// int64 extremes that are exactly representable in the row codec's float64
+			// carrier (multiples of 2^11 beyond 2^53), so that C06's digit loss stays out
+			ex := []int64{maxSafeInt, -maxSafeInt, 0, 1, -1, 1 << 31, -(1 << 31), 1 << 32, (1 << 32) + 1, maxSafeInt - 1,
+				math.MinInt64, math.MaxInt64 - 1023, 1 << 62, -(1 << 62), (1 << 60) + (1 << 11), 1700000000000000000}
 			v = ex[cellH%uint64(len(ex))]
 		case 4:
 			v = int64(cellH>>11) - (int64(1) << 52)
 		default:
-			v = base + T*(int64(1)<<40) + int64(w)
+			if col%2 == 0 {
+				v = base + T*(int64(1)<<40) + int64(w)
+			} else {
+				// epoch-nanosecond-like values with an occasional 0: huge first / inner deltas
+				v = 1700000000000000000 + T*1000000000
+				if (T+int64(col>>8))%7 == 0 {
+					v = 0
+				}
+			}
 		}
 		return sVal{Typ: influxql.Integer, I: v, W: w}
 	case "ff":
